@@ -275,7 +275,7 @@ PROPS["C08"] = {
     "module": "MsiProofs.Props.C08b",
     "gen": ["limits", "column"],
     "profiles": ["dev"],
-    "theorems": ["MsiProofs.C08.cell_roundtrip", "MsiProofs.C08.min_is_null", "MsiProofs.C08.rows_roundtrip", "MsiProofs.C08.pool_roundtrip", "MsiProofs.C08.increfScan_total", "MsiProofs.C08.incref_accounting", "MsiProofs.C08.decrefAt_total", "MsiProofs.C08.decref_accounting", "MsiProofs.C08.incref_exact", "MsiProofs.C08.decref_spec", "MsiProofs.C08.insert_accounted", "MsiProofs.C08.delete_accounted", "MsiProofs.C08.exact_iff", "MsiProofs.C08.history_inv", "MsiProofs.C08.insert_inv", "MsiProofs.C08.delete_inv", "MsiProofs.C08.update_inv", "MsiProofs.C08.dml_history_inv"],
+    "theorems": ["MsiProofs.C08.cell_roundtrip", "MsiProofs.C08.min_is_null", "MsiProofs.C08.rows_roundtrip", "MsiProofs.C08.pool_roundtrip", "MsiProofs.C08.increfScan_total", "MsiProofs.C08.incref_accounting", "MsiProofs.C08.decrefAt_total", "MsiProofs.C08.decref_accounting", "MsiProofs.C08.incref_exact", "MsiProofs.C08.decref_spec", "MsiProofs.C08.insert_accounted", "MsiProofs.C08.delete_accounted", "MsiProofs.C08.exact_iff", "MsiProofs.C08.history_inv", "MsiProofs.C08.insert_inv", "MsiProofs.C08.delete_inv", "MsiProofs.C08.update_inv", "MsiProofs.C08.dml_history_inv", "MsiProofs.C08.s0_inv", "MsiProofs.C08.s0_sorted"],
     "level_text": "Update::exec included: every history of inserts, updates and deletes keeps the counts exact over the whole package (dml_history_inv). WHOLE PACKAGES, WHOLE HISTORIES: the invariant Inv (every table loads; table streams pairwise distinct; reference counts = references held by the cells of ALL tables + a fixed slack; pool within its reference width) is re-established by every successful insert or delete on any table and untouched by every refused one, hence holds along every history (history_inv: induction over the request list). EXACT COUNTS AS AN INVARIANT: with AccountedWith slack p cells (references from the cells + slack = reference count, every entry), a successful Insert::exec and a successful Delete::exec leave the cells the new state reads - together with any other cells of interest, e.g. those of all other tables - accounted with the SAME slack (slack 0: counts equal the numbers of references; the empty state is exact); incref adds exactly one reference to the entry it returns, decref releases exactly one and clears text only at zero. create/drop table (catalog rows) in histories: by oracle. Lean theorems: cells are offset-binary with zero = null and the reserved minimum; incref adds exactly one reference to an entry holding exactly the string and never yields a live empty entry, decref removes exactly one and clears the text at zero (unused entries are empty), dangling references change nothing. Tie: the raw streams of every saved file are decoded by an independent decoder (harness/src/decode.rs): whole rows, live references, exact reference counts over all tables incl. the catalog, no stale text, catalog = existing tables with columns numbered 1..n, rows = API rows; and compared byte-for-byte with the model's own save.",
     "level_note": "Trusted: Lean kernel; the hand-written package model (MsiModel/Pkg.lean, PkgApi.lean, Pool, Table, PropSet, Summary), tied to the code by byte-exact correspondence: the same request histories run on the real crate and on the model's definitions, compared on every reply including full snapshots and the raw bytes of every saved stream; cfb is modelled as a finite map from names (compared by UTF-16 length and upper-cased text) to byte strings; the 24 table-backed code pages are modelled on ASCII text only (non-ASCII text is exercised under UTF-8; all pages are exercised by the oracle on the real code).",
     "technique": 'Lean 4 proof (reference-count accounting by induction) + independent format decoder on real saved bytes',
